@@ -301,3 +301,41 @@ def structure(sems, nW):
         if best is None or t < best:
             best = t
     return best
+
+
+def tie_rich(part, sems, q, feas):
+    """True iff deciding q = (V, F) by the layer-wise recursions of System W / lexicographic inference meets, in a layer
+    above the lowest one, a tie with >= 2 tied inclusion-minimal falsification sets (W) or >= 2 minimum-cardinality sets on
+    one side at equal cardinality (lex). Used only to SELECT queries that exercise the tie handling; never as an oracle."""
+    def rec(li, vw, fw):
+        if li < 1 or not vw or not fw:
+            return False
+        layer = part[li]
+        fs = lambda w: frozenset(i for i in layer if sems[i][1] >> w & 1)   # noqa: E731
+        fv = {}
+        ff = {}
+        for w in vw:
+            fv.setdefault(fs(w), []).append(w)
+        for w in fw:
+            ff.setdefault(fs(w), []).append(w)
+        minv = {x for x in fv if not any(y < x for y in fv)}
+        minf = {x for x in ff if not any(y < x for y in ff)}
+        ties = minv & minf
+        if len(ties) >= 2:
+            return True
+        cv = min(len(x) for x in fv)
+        cf = min(len(x) for x in ff)
+        if cv == cf:
+            mv = [x for x in fv if len(x) == cv]
+            mf = [x for x in ff if len(x) == cf]
+            if len(mv) >= 2 or len(mf) >= 2:
+                return True
+            if rec(li - 1, fv[mv[0]], ff[mf[0]]):
+                return True
+        for x in ties:
+            if rec(li - 1, fv[x], ff[x]):
+                return True
+        return False
+    from .forms import bits as _bits
+
+    return rec(len(part) - 1, list(_bits(q[0] & feas)), list(_bits(q[1] & feas)))
